@@ -43,12 +43,12 @@ ASSUMPTIONS = [
     "mapping-valued operands, $where and keys containing '$' or '.' are outside the documented grammar",
 ]
 
-UNIVERSE = [0, 1, 2, -1, 1.0, 2.5, 1.005, 1.0000000001, True, False, None, "1", "ab", "abc", "", [1, 2], [1.0, 2], [], {"x": 1}]
+UNIVERSE = [0, 1, 2, -1, 1.0, 2.5, 1.005, 1.0000000001, True, False, None, "1", "ab", "abc", "", "a/b/", "/ab", [1, 2], [1.0, 2], [], {"x": 1}]
 SCALAR_U = [v for v in UNIVERSE if not isinstance(v, dict)]
 SP_KEYS = ["a", "b", "n", "l", "spec"]  # "spec": a key that merely starts like the "sp" namespace
 DOC_KEYS = ["a", "d", "s", "docs"]  # "docs": starts like the "doc" namespace
 TYPE_NAMES = ["int", "float", "bool", "str", "list", "null"]
-REGEXES = ["a", "^a", "b$", "a.c", "", "1", "[ab]c", "^$"]
+REGEXES = ["a", "^a", "b$", "a.c", "", "1", "[ab]c", "^$", "b/", "/a", "^a/b/$", "/"]
 LEAF_KEYS = ["a", "b", "n.x", "n", "l", "doc.a", "doc.d.y", "doc.d", "doc.s", "sp.a", "sp.n.x", "zz", "doc.zz", "spec.x", "sp.spec.x", "spec", "doc.docs.y"]
 OPS = ["$eq", "$ne", "$gt", "$gte", "$lt", "$lte", "$in", "$nin", "$exists", "$regex", "$type", "$near"]
 
@@ -82,7 +82,10 @@ def corpora(draw, max_jobs=6):
                 if k in ("d", "docs") and draw(st.integers(0, 4)) != 0:
                     v = {"y": v} if not isinstance(v, dict) else {"y": 2, "x": v}
                 doc[k] = v
-        jobs.append({"sp": sp, "doc": doc})
+        j = {"sp": sp, "doc": doc}
+        if draw(st.integers(0, 9)) == 0:
+            j["link"] = True  # the job directory lives elsewhere and is symlinked into the workspace
+        jobs.append(j)
     return jobs
 
 
@@ -217,6 +220,11 @@ def build_project(ctx, jobs):
                 f.write(json.dumps(j["doc"]))
             jd["doc"] = j["doc"]
         docs[jid] = jd
+        if j.get("link"):
+            store = os.path.join(d, "elsewhere")
+            os.makedirs(store, exist_ok=True)
+            os.rename(job.path, os.path.join(store, jid))
+            os.symlink(os.path.join(store, jid), os.path.join(d, "workspace", jid))
     return signac.Project(d), docs
 
 
